@@ -14,8 +14,12 @@ REF_POOL = [
     {"title": "A modular cloning system", "authors": "Weber E.", "journal": "PLoS ONE 6", "pubmed": "21364738"},
     {"title": "A highly characterized yeast toolkit", "authors": "Lee M.E.", "journal": "ACS Synth Biol 4", "pubmed": "25871405"},
     {"title": "CIDAR MoClo", "authors": "Iverson S.V.", "journal": "ACS Synth Biol 5", "pubmed": "26479688"},
-    {"title": "EcoFlex", "authors": "Moore S.J.", "journal": "ACS Synth Biol 5", "pubmed": "27096716"},
-    {"title": "Direct submission", "authors": "Doe J.", "journal": "Unpublished"},
+    # references that differ from each other in one field only (journal,
+    # comment, authors): still distinct references
+    {"title": "Direct Submission", "authors": "Doe J.", "journal": "Submitted (01-JAN-2015) Lab A"},
+    {"title": "Direct Submission", "authors": "Doe J.", "journal": "Submitted (02-FEB-2016) Lab A"},
+    {"title": "Direct Submission", "authors": "Doe J.", "journal": "Submitted (02-FEB-2016) Lab A", "comment": "revised"},
+    {"title": "Direct Submission", "authors": "Roe R.", "journal": "Submitted (02-FEB-2016) Lab A"},
     {"title": "Golden Gate shuffling", "authors": "Engler C.", "journal": "PLoS ONE 4", "pubmed": "19436741"},
 ]
 
@@ -115,6 +119,22 @@ def arcs_inside(arcs, n, A, L, shift=0):
     return True
 
 
+def touch(entities, spec):
+    """Inspect some participants before assembling, as a user would."""
+    for i in spec.get("touch") or []:
+        ent = entities[i % len(entities)]
+        if ent.is_valid():
+            ent.overhang_start()
+            ent.overhang_end()
+            ent.target_sequence()
+
+
+def ref_tuple(r):
+    """Comparable fields of a pool reference spec."""
+    return (r.get("title", ""), r.get("authors", ""), r.get("journal", ""), r.get("pubmed", ""),
+            r.get("medline", ""), r.get("comment", ""))
+
+
 def participant_record(b, pspec):
     """Build the annotated CircularRecord of a participant.
 
@@ -155,11 +175,14 @@ def annotated_assembly(draw, max_chain=4, max_seg=30, with_refs=False, enzyme=No
         A0 = (A - extra) % b.n          # arc in the coordinates the features are drawn in
         nrefs = 0
         if with_refs and draw(st.integers(0, 3)):
-            refs = draw(st.lists(st.integers(0, len(REF_POOL) - 1), min_size=0, max_size=4,
+            refs = draw(st.lists(st.integers(0, len(REF_POOL) - 1), min_size=0, max_size=5,
                                  unique=True))
             p["refs"] = refs
             nrefs = len(refs)
         p["feats"] = draw(feature_table(b.n, A0, L, prefix=b.id + "_", nrefs=nrefs))
+    if draw(st.integers(0, 2)) == 0:
+        # participants inspected (is_valid, overhangs, target) before the call
+        spec["touch"] = draw(st.lists(st.integers(0, len(bms)), min_size=1, max_size=3))
     return spec
 
 
